@@ -17,6 +17,7 @@ from fvmon import gen
 from fvmon.observe import content, snap, unbox, RC, WF
 
 SPEC = {
+    "anchors": ["fibertree.core.fiber:Fiber.getPayload", "fibertree.core.fiber:Fiber.getPayloadRef", "fibertree.core.fiber:Fiber.getPosition", "fibertree.core.fiber:Fiber.getPositionRef", "fibertree.core.fiber:Fiber._coordExists", "fibertree.core.fiber:Fiber._createDefault", "fibertree.core.fiber:Fiber._instantiateDefault", "fibertree.core.payload:Payload.__iadd__", "fibertree.core.payload:Payload.__ilshift__", "fibertree.core.tensor:Tensor.getPayload", "fibertree.core.tensor:Tensor.getPayloadRef", "fibertree.core.fiber:Fiber.__getitem__"],
     "rule": ("case = tensor of depth 0-3 (or a free depth-1 fiber), canonical or holding explicit defaults / empty "
              "sub-fibers, default 0 or 7, + a history of 10-30 (quick) / 10-100 (thorough) accesses over {getPayload "
              "(full / partial point, allocate on/off, caller default), getPayloadRef (full / partial) followed by "
